@@ -364,4 +364,8 @@ def run(prog, rep):
     # a string value must come back as the same value (and printing must not panic): the escape
     # tables of quoted strings are decided by C09.ESCINV, shared here
     rule_escinv(prog, rep)
+    # type references and numbers are part of what must re-parse to an equal AST
+    from .C10 import rule_numfmt, rule_type
+    rule_type(prog, rep)
+    rule_numfmt(prog, rep)
     rep.note("round-trip equality, byte-identical re-serialization and the CST->AST conversion's field completeness (compiler-enforced struct expressions) are not decided")
